@@ -106,6 +106,7 @@ def run(ctx):
         f0, z0 = complex(np.ravel(v1[0])[0]), complex(np.ravel(v1[1])[0])
         terms.append("(probe_ok %s %s %s %s)" % (prog.c_ops(p), prog.c_sm(snaps[0]), core.qi(f0), core.qi(z0)))
         meta.append(("nest", p))
+    nestD_stream(ctx, 25 if quick else 600)
     # (a') a '*' group reused as the left operand of two products must not change
     for i in range(15 if quick else 300):
         p = prog.gen_program(ctx.rng, maxlen=4, init_p=0.0, global_nmax_p=0.0, kinds=["scalar", "matrix", "shift", "spoil"])
@@ -276,6 +277,57 @@ def combD_stream(ctx, n):
     ctx.cov["combD_cases"] = len(terms)
 
 
+def nestD_stream(ctx, n):
+    """flat / nested / '*'-grouped writings of a sequence of DIFFERENTIABLE real operators: the Jacobian and Hessian
+    probes must return the same values ("a sequence gives the same results whether written flat, nested or grouped")"""
+    import epgpy as epg
+    for i in range(n):
+        rng = ctx.rng
+        second = rng.random() < 0.5
+        kw = (lambda *names: {"order1": list(names), "order2": list(names)}) if second else (lambda *names: {"order1": list(names)})
+        ops, desc = [], []
+        for j in range(rng.randint(3, 8)):
+            k = rng.choice(["T", "T", "E", "E", "S", "P"])
+            if k == "T":
+                a, ph = float(rng.choice([20, 45, 90, 150])), float(rng.choice([0, 30, 90]))
+                ops.append(epg.T(a, ph, **(kw("alpha") if rng.random() < 0.8 else {})))
+                desc.append(("T", a, ph))
+            elif k == "E":
+                tau, t2 = float(rng.choice([3, 5, 8])), float(rng.choice([40, 70]))
+                ops.append(epg.E(tau, 900.0, t2, 0.01, **(kw("T2", "tau") if rng.random() < 0.8 else {})))
+                desc.append(("E", tau, t2))
+            elif k == "P":
+                ops.append(epg.P(2.0, 0.03, **(kw("g") if rng.random() < 0.5 else {})))
+                desc.append(("P",))
+            else:
+                d = int(rng.choice([1, 1, -1, 2]))
+                ops.append(epg.S(d))
+                desc.append(("S", d))
+        struct = nest(rng, ops)
+        variables = ["alpha", "T2", "tau", "g", "magnitude"]
+        try:
+            nested, flat = build_nested(struct) + [epg.ADC], ops + [epg.ADC]
+            # the same grouped block repeated at top level, each time followed by an acquisition
+            rep = rng.randint(1, 3)
+            nested, flat = nested * rep, flat * rep
+            j1 = np.asarray(epg.simulate(nested, probe=epg.Jacobian(variables)))
+            j2 = np.asarray(epg.simulate(flat, probe=epg.Jacobian(variables)))
+            if second:
+                h1 = np.asarray(epg.simulate(nested, probe=epg.Hessian(["alpha", "T2", "tau"])))
+                h2 = np.asarray(epg.simulate(flat, probe=epg.Hessian(["alpha", "T2", "tau"])))
+        except Exception as e:
+            ctx.report("nested / grouped differentiable sequence raised %s: %s" % (type(e).__name__, str(e)[:200]), {"ops": desc, "structure": repr(struct)[:400]},
+                       found_input=True, signature={"raises": type(e).__name__, "site": "nesting-partials"})
+            continue
+        ctx.count(("nestD", repr(desc), repr(struct)[:200], second), nontrivial=True)
+        if j1.shape != j2.shape or not np.allclose(j1, j2, rtol=1e-12, atol=1e-14):
+            ctx.report("nested/grouped sequence returns a different Jacobian than the flat one", {"ops": desc, "structure": repr(struct)[:400]}, found_input=True,
+                       signature={"why": "nesting-jacobian"})
+        elif second and (h1.shape != h2.shape or not np.allclose(h1, h2, rtol=1e-12, atol=1e-14)):
+            ctx.report("nested/grouped sequence returns a different Hessian than the flat one", {"ops": desc, "structure": repr(struct)[:400]}, found_input=True,
+                       signature={"why": "nesting-hessian"})
+
+
 def same_partials(a, b):
     if set(a) != set(b):
         return False
@@ -298,6 +350,14 @@ def partial_oracle(ctx, n):
                 o2 = dprog.gen_dop(ctx.rng, with_order2=True)
             v = sorted(o2["order1"])[0]
             o2["order2_arg"], o2["order2"], o2["auto"] = [(v, v)], {(v, v): {}}, False
+        if w2 and i % 4 == 2:
+            # left operand with explicit second-order pairs (default coefficients, own parameter names), right operand
+            # without any declaration: its array must still act on the left operand's second-derivative arrays
+            while (not o1["order1"]) or isinstance(o1["order1_arg"], dict):
+                o1 = dprog.gen_dop(ctx.rng, with_order2=True)
+            v = sorted(o1["order1"])[0]
+            o1["order2_arg"], o1["order2"], o1["auto"] = [(v, v)], {(v, v): {}}, False
+            o2["order1_arg"], o2["order1"], o2["order2_arg"], o2["order2"] = None, {}, None, {}
         # like the real operators (T, Phi, E, P, R), keep derivative arrays only for the activated parameters
         for o in (o1, o2):
             act = {p_ for cs in o["order1"].values() for p_ in cs}
